@@ -2,6 +2,7 @@ import SimplicityModel.IterProps
 import SimplicityModel.IterTie
 import SimplicityModel.IterCert
 import SimplicityModel.IterAssert
+import SimplicityModel.IterVerboseSpec
 set_option linter.unusedSectionVars false
 set_option linter.unusedVariables false
 /-!
@@ -247,6 +248,38 @@ theorem pre_pointer_same_objects_as_post (root : T) (hi : IdsFaithful root) :
       have := same_ptr_eq root hi (hdesc o ho) hd hs
       rw [← this]; exact ho
 
+/-! ## verbose pre-order -/
+
+/-- The stack machine of `VerbosePreOrderIter::next` computes the recursive specification `vspec`:
+a node whose class was not seen is yielded with `n_children_yielded = 0` (index = number of first
+yields so far, depth and parent of the path it was reached by, `is_complete` iff it has no
+children), then — unless `depth < max_depth` fails — the walk of its left child, the node again with
+count 1, the walk of its right child, the node with count 2; `is_complete` exactly on the last. -/
+theorem verbose_machine_eq_spec (md : Option Nat) (root : T) :
+    vrun key md (vinit root) = (vspec key md root 0 none (fun _ => none) 0).1 :=
+  vrun_eq_vspec key md root
+
+/-- without a depth limit the first yields of the verbose iterator are the pre-order iteration -/
+theorem verbose_first_yields_are_preorder (root : T) :
+    (firsts (vrun key none (vinit root))).map (·.node) = prun key (pinit root) := by
+  rw [vrun_eq_vspec, prun_eq_pre]
+  exact (vspec_firsts_pre key root 0 none (fun _ => none) 0).1
+
+/-- first yields are numbered 0, 1, 2, … (with or without a depth limit) -/
+theorem verbose_first_yields_numbered (md : Option Nat) (root : T) :
+    (firsts (vrun key md (vinit root))).map (·.index) = List.range (firsts (vrun key md (vinit root))).length := by
+  rw [vrun_eq_vspec]
+  obtain ⟨c, _, h⟩ := vspec_indices key md root 0 none (fun _ => none) 0
+  have hl := congrArg List.length h
+  simp only [List.length_map, List.length_range'] at hl
+  rw [h, hl, List.range_eq_range']
+
+/-- nothing deeper than `max_depth` is yielded -/
+theorem verbose_depth_limit_respected (m : Nat) (root : T) (v : VItem)
+    (h : v ∈ vrun key (some m) (vinit root)) : v.depth ≤ m := by
+  rw [vrun_eq_vspec] at h
+  exact vspec_depth key m root 0 none (fun _ => none) 0 (Nat.zero_le _) v h
+
 /-! ## the sharing check -/
 
 /-- **`is_shared_as` accepts exactly when the pointer structure already equals the requested
@@ -358,6 +391,12 @@ example : (run (shape fun _ => some 0) (init (U [.leaf, .leaf, .bin 0 1] 2))).ma
 
 example : (prun ptr (pinit ex)).map T.id = [3, 2, 1, 0] := by
   rw [prun_eq_pre]; decide
+
+/-- on `ex` with pointer sharing: 3 is yielded three times, 2 three times, 1 twice, 0 once -/
+example : (vrun ptr none (vinit ex)).map (fun v => (v.node.id, v.index, v.depth, v.ncy, v.complete)) =
+    [(3, 0, 0, 0, false), (2, 1, 1, 0, false), (1, 2, 2, 0, false), (0, 3, 3, 0, true), (1, 2, 2, 1, true),
+     (2, 1, 1, 1, false), (2, 1, 1, 2, true), (3, 0, 0, 1, false), (3, 0, 0, 2, true)] := by
+  rw [vrun_eq_vspec]; decide
 
 /-- the sharing check: `bin(leaf, leaf)` with two leaf objects is *not* shared as the identity hash
 wants it, and is shared as pointers -/
